@@ -114,8 +114,11 @@ impl<'tx> Tx<'tx> {
             true => TxLock::Rw(db.inner.file.lock()?),
             false => TxLock::Ro(db.inner.mmap_lock.read()?),
         };
+        vpoint!("tx:locked", w = writable);
         let mut freelist = db.inner.freelist.lock()?.clone();
+        vpoint!("tx:fl_cloned", w = writable);
         let mut meta = db.inner.meta()?;
+        vpoint!("tx:meta_read", w = writable, tx_id = meta.tx_id, slot = meta.meta_page);
         debug_assert!(meta.valid());
         {
             let mut open_ro_txs = db.inner.open_ro_txs.lock().unwrap();
@@ -126,11 +129,14 @@ impl<'tx> Tx<'tx> {
                 } else {
                     freelist.release(meta.tx_id);
                 }
+                vpoint!("tx:released", tx_id = meta.tx_id, nreaders = open_ro_txs.len());
             } else {
                 open_ro_txs.push(meta.tx_id);
                 open_ro_txs.sort_unstable();
+                vpoint!("tx:registered", tx_id = meta.tx_id, nreaders = open_ro_txs.len());
             }
         }
+        vpoint!("tx:reg_done", w = writable);
         let freelist = Rc::new(RefCell::new(TxFreelist::new(meta.clone(), freelist)));
 
         let data = db.inner.data.lock()?.clone();
@@ -138,6 +144,7 @@ impl<'tx> Tx<'tx> {
         let num_freelist_pages = pages.page(meta.freelist_page).overflow + 1;
         let root = InnerBucket::from_meta(meta.root, pages.clone());
         let root = Rc::new(RefCell::new(root));
+        vpoint!("tx:ready", w = writable, tx_id = meta.tx_id);
         let inner = TxInner {
             db,
             lock,
@@ -261,6 +268,7 @@ impl<'tx> Tx<'tx> {
             return Err(Error::ReadOnlyTx);
         }
         let mut tx = self.inner.borrow_mut();
+        vpoint!("commit:enter", tx_id = tx.meta.tx_id);
         let freelist = tx.freelist.clone();
         let mut freelist = freelist.borrow_mut();
         let meta = {
@@ -268,6 +276,7 @@ impl<'tx> Tx<'tx> {
             root.rebalance(&mut freelist)?;
             root.spill(&mut freelist)?
         };
+        vpoint!("commit:spilled", root = meta.root_page, next_int = meta.next_int);
         tx.meta.root = meta;
         tx.write_data(&mut freelist)
     }
@@ -291,6 +300,7 @@ impl<'tx> TxInner<'tx> {
                 page.count = free_page_ids.len() as u64;
                 page.freelist_mut()
                     .copy_from_slice(free_page_ids.as_slice());
+                vpoint!("commit:fl_alloc", page = page.id, n = page.overflow + 1, count = page.count);
             }
 
             // Update our num_pages from the freelist now that we've allocated everything
@@ -305,6 +315,7 @@ impl<'tx> TxInner<'tx> {
                 let data = self.db.inner.resize(file, current_size + alloc_size)?;
                 self.pages = Pages::new(data, self.db.inner.pagesize);
             }
+            vpoint!("commit:sized", num_pages = self.meta.num_pages);
 
             // write the data to the file
             {
@@ -316,6 +327,7 @@ impl<'tx> TxInner<'tx> {
                     file.write_all(buf)?;
                 }
             }
+            vpoint!("commit:data_written", n = freelist.pages.len());
         }
         if self.db.inner.flags.strict_mode {
             self.check()?;
@@ -343,13 +355,19 @@ impl<'tx> TxInner<'tx> {
 
                 file.seek(SeekFrom::Start(self.db.inner.pagesize * meta_page_id))?;
                 file.write_all(buf.as_slice())?;
+                vpoint!("commit:meta_written", slot = meta_page_id, tx_id = self.meta.tx_id);
             }
 
             file.flush()?;
             file.sync_all()?;
+            vpoint!("commit:synced", tx_id = self.meta.tx_id);
 
             let mut lock = self.db.inner.freelist.lock()?;
             *lock = freelist.inner.clone();
+            vpoint!("commit:published", tx_id = self.meta.tx_id);
+            #[cfg(jammdb_verif)]
+            drop(lock);
+            vpoint!("commit:done", tx_id = self.meta.tx_id);
             Ok(())
         } else {
             unreachable!()
@@ -476,6 +494,7 @@ impl<'tx> TxInner<'tx> {
 
 impl<'tx> Drop for TxInner<'tx> {
     fn drop(&mut self) {
+        vpoint!("drop:enter", w = self.lock.writable(), tx_id = self.meta.tx_id);
         if !self.lock.writable() {
             let mut open_txs = self.db.inner.open_ro_txs.lock().unwrap();
             let index = match open_txs.binary_search(&self.meta.tx_id) {
@@ -483,7 +502,9 @@ impl<'tx> Drop for TxInner<'tx> {
                 _ => return, // this shouldn't happen, but isn't the end of the world if it does
             };
             open_txs.remove(index);
+            vpoint!("drop:deregistered", tx_id = self.meta.tx_id, nreaders = open_txs.len());
         }
+        vpoint!("drop:done", w = self.lock.writable(), tx_id = self.meta.tx_id);
     }
 }
 
